@@ -145,6 +145,22 @@ theorem C05_release_that_waits_blocks_the_call :
       (fun s => decide ((step skFreeWaits s (.callRecover 0 eLinkCtx)).isSome = true)) = some true := by
   refine ⟨?_, ?_, ?_, ?_⟩ <;> decide
 
+/-- "…any number of times, also concurrently": with the closure's wrapper itself in the table two threads are inside
+    the SAME closure at once; with a serialising wrapper around it (`clStoresCreatedClosure` flipped) the second
+    invocation is not let in while the first one runs — if the first waits for the second (a rendezvous, a chain that
+    re-enters the closure) that is a deadlock inside panrpc — and is let in once the first body is done. -/
+theorem C05_serialised_closure_keeps_the_second_invocation_out :
+    (run Skeleton.current init [.callStart 0 5 2 1, .callReceive 0, .callSpawn 0, .callWrite 0, .waiterRecvCall 0,
+                                .closureInvoke 9 0, .closureInvoke 8 0]).map
+      (fun s => decide (s.running 9 = some 0 ∧ s.running 8 = some 0)) = some true ∧
+    (run skSerialisedClosure init [.callStart 0 5 2 1, .callReceive 0, .callSpawn 0, .callWrite 0, .waiterRecvCall 0,
+                                   .closureInvoke 9 0]).map
+      (fun s => decide (s.running 9 = some 0 ∧ (step skSerialisedClosure s (.closureInvoke 8 0)).isSome = false)) = some true ∧
+    (run skSerialisedClosure init [.callStart 0 5 2 1, .callReceive 0, .callSpawn 0, .callWrite 0, .waiterRecvCall 0,
+                                   .closureInvoke 9 0, .closureBodyDone 9]).map
+      (fun s => decide ((step skSerialisedClosure s (.closureInvoke 8 0)).isSome = true)) = some true := by
+  refine ⟨?_, ?_, ?_⟩ <;> decide
+
 /-- `utils.Call` is one reflect call under a deferred recover: nothing in it can wait and it touches no
     package-level state (checked against the regenerated skeleton) — handlers nest `utils.Call` (a handler
     invoking a closure), so anything acquired there and held across the call could exhaust and deadlock. -/
@@ -169,6 +185,7 @@ end Panrpc.Ep
 #print axioms Panrpc.Ep.C05_release_never_disabled_by_a_running_closure
 #print axioms Panrpc.Ep.C05_lock_held_across_closure_blocks_release
 #print axioms Panrpc.Ep.C05_release_that_waits_blocks_the_call
+#print axioms Panrpc.Ep.C05_serialised_closure_keeps_the_second_invocation_out
 
 #print axioms Panrpc.Ep.C05_no_crash
 #print axioms Panrpc.Ep.C05_projects_to_broadcaster
